@@ -6,6 +6,7 @@
    Generic part: any node type / adjacency / distance; binary64 instance below.  No proofs in this file. *)
 From Coq Require Import List Bool Arith ZArith PrimFloat.
 From V.base Require Import FloatBits.
+From V.model Require Import Hdc.
 Import ListNotations.
 
 Section Sorter.
@@ -142,3 +143,31 @@ Definition f_sort_points (xs ys : list float) (nbr : list (list Z)) (search : bo
   let adj := fun v : Z => nth (Z.to_nat v) tbl [] in
   sort_points Z Z.eqb float PrimFloat.ltb infinity np_sum (znodes n) adj (fd2 xs ys) search
               (fuel_bound Z (znodes n) adj).
+
+(* ------------------------------------------------------------------ self.coordinates of HighestDensityContour *)
+(* per-label coordinate sets -> one array (n-D), the sorted line (one region, 2-D) or one set per region *)
+Inductive final_coords :=
+| FOne (pts : list (list float))
+| FMany (sets : list (list (list float)))
+| FSorterFailed.
+
+Definition column (k : nat) (p : list (list float)) : list float := map (fun r => nth k r nan) p.
+Definition take_rows (p : list (list float)) (order : list Z) : list (list float) :=
+  map (fun k => nth (Z.to_nat k) p []) order.
+
+Definition f_hdc_coordinates (n_dim : nat) (sh : list nat) (labels : list nat) (n_modes : nat)
+           (coords : list (list float)) (nbr : list (list Z)) : final_coords :=
+  match dispatch n_dim (map (region_coords nan sh coords) (regions labels n_modes)) with
+  | ManyRegions s => FMany s
+  | OneRegion p => FOne p
+  | SortedLine p =>
+      match f_sort_points (column 0 p) (column 1 p) nbr true with
+      | None => FSorterFailed
+      | Some order => FOne (take_rows p order)
+      end
+  end.
+
+(* the walk as it was before the repair: the start node's component only (kept for the refutation in props/C15.v) *)
+Definition unrepaired_path (nbr : list (list Z)) (start : Z) : option (list Z) :=
+  let tbl := adj_table nbr in
+  option_map (@rev Z) (dfs Z Z.eqb (fun v => nth (Z.to_nat v) tbl []) 100 [start] []).
